@@ -29,6 +29,35 @@ def nextN {σ α : Type} (next : σ → Option α × σ) : Nat → σ → List (
   | 0, s => ([], s)
   | n + 1, s => let r := next s; let q := nextN next n r.2; (r.1 :: q.1, q.2)
 
+/-- an enumeration that is RESUMED: `k` calls of `next()` (all results reported), then the remainder as a consumer
+    that stops at the first `None` sees it (`collect`, `for_each`, `fold`, `count`, `last`, ... of the advanced
+    iterator all consume this remainder) -/
+def resumeRun {σ α : Type} (next : σ → Option α × σ) (k fuel : Nat) (s : σ) : List (Option α) × List α :=
+  let a := nextN next k s
+  (a.1, (drain next fuel a.2).1)
+
+/-! ### answers of the provided `Iterator` methods on a remaining sequence `l` (std semantics):
+    `count` = `l.length`, `last` = `l.getLast?`, `nth(j)` = `l[j]?` (and the iterator continues at `l.drop (j+1)`),
+    `skip(1).next()` = `l[1]?`, `position(p)` = `l.findIdx? p`, `all(|_| true)` = true leaving nothing -/
+
+/-- `step_by(2)`: every second element starting with the first -/
+def stepBy2 {α : Type} : List α → List α
+  | [] => []
+  | [a] => [a]
+  | a :: _ :: t => a :: stepBy2 t
+
+/-- `Iterator::min` on index tuples (lexicographic `Ord` of arrays / tuples; the first minimum wins) -/
+def minLex (l : List (List Nat)) : Option (List Nat) :=
+  l.foldl (fun acc x => match acc with
+    | none => some x
+    | some a => if x < a then some x else some a) none
+
+/-- `Iterator::max` (the last maximum wins) -/
+def maxLex (l : List (List Nat)) : Option (List Nat) :=
+  l.foldl (fun acc x => match acc with
+    | none => some x
+    | some a => if x < a then some a else some x) none
+
 /-- `std::slice::Iter<V>`: the remaining elements -/
 abbrev SliceIter (V : Type) := List V
 
@@ -68,6 +97,10 @@ def MultiRange.next (r : MultiRange) : Option (List Nat) × MultiRange :=
 /-- all indexes, as a consumer that stops at the first `None` sees them -/
 def MultiRange.toList (size : List Nat) : List (List Nat) :=
   (drain MultiRange.next (size.foldl (· * ·) 1 + 1) (MultiRange.new size)).1
+
+/-- `indexes()` advanced by `k` calls of `next()`: their results and what a draining consumer then sees -/
+def MultiRange.resume (size : List Nat) (k : Nat) : List (Option (List Nat)) × List (List Nat) :=
+  resumeRun MultiRange.next k (size.foldl (· * ·) 1 + 1) (MultiRange.new size)
 
 /-- specification: lexicographic list of `[0,n0) x ... x [0,nk)`, last coordinate fastest -/
 def lexList : List Nat → List (List Nat)
